@@ -22,6 +22,7 @@ from ..ivl import I, DomainError
 from ..ivlinterp import Interp, Obj, Ret, Unsupported, as_iv, join, Aff
 from ..loader import where, AnalysisError
 from .. import poly
+from ..terms import Terms, PathEnv, fuse, alpha, canonical, self_effects_of, index_maps
 
 
 def subst(node, mapping):
@@ -112,7 +113,16 @@ def r1_schema(ctx, repo, cname):
         ctx.violated("R1", C, where(mod, init), "the objective is re-initialised after the product loop", key="schema")
         return None
     jv = prod_loop.target.id
-    prb = range_bounds(prod_loop.iter)
+    TT = Terms(fn)
+    # terms are written over the entry values; fold the two definitions back to their names
+    back = {"len(self.costs)": mname}
+    for s_ in fn.body:
+        if isinstance(s_, ast.Assign) and isinstance(s_.value, ast.Attribute) and s_.value.attr == "vector" and access_path(s_.targets[0]) == xn:
+            back[text(s_.value)] = xn
+
+    def xp(e, at):
+        return subst(index_maps(TT.expand(e, at=at, skip=(mname, xn))), back)
+    prb = range_bounds(xp(prod_loop.iter, prod_loop))
     S = prb[1]
     try:
         S_ok = (prb[0] is None or text(prb[0]) == "0") and poly.equal(S, poly.parse("%s - %s - 1" % (mname, iv)))
@@ -131,8 +141,8 @@ def r1_schema(ctx, repo, cname):
                                                                          (isinstance(t.ops[0], ast.NotEq) and text(t.comparators[0]) == "0"))
     if not g_ok:
         ctx.violated("R1", C, where(mod, comp_if), "the complement factor is applied under `%s`, expected for every objective but the first (i > 0)" % text(t), key="complement-guard")
-    Cf = [mult_factor(b, acc) for b in prod_loop.body if mult_factor(b, acc) is not None]
-    Sf = [mult_factor(b, acc) for b in comp_if.body if mult_factor(b, acc) is not None]
+    Cf = [xp(mult_factor(b, acc), b) for b in prod_loop.body if mult_factor(b, acc) is not None]
+    Sf = [xp(mult_factor(b, acc), b) for b in comp_if.body if mult_factor(b, acc) is not None]
     if len(Cf) != 1 or len(Sf) != 1:
         ctx.violated("R1", C, where(mod, ol), "%d position factor(s) per product step and %d complement factor(s) (expected 1 and 1)" % (len(Cf), len(Sf)), key="factors")
         return None
@@ -312,12 +322,18 @@ def distance_range(ctx, repo, cname, info):
     C = "%s.evaluate" % cname
     # DTLZ2-4: for i in range(0, k): x[len(x) - i - 1] ; DTLZ1: for y in x[nvar - k:]
     idxs = []
+    TT = Terms(fn)
+    back = {"len(self.costs)": info["m"]}
+    for s_ in fn.body:
+        if isinstance(s_, ast.Assign) and isinstance(s_.value, ast.Attribute) and s_.value.attr == "vector" and access_path(s_.targets[0]) == xn:
+            back[text(s_.value)] = xn
     for s in stmts_of(fn):
         if isinstance(s, ast.For) and isinstance(s.target, ast.Name):
-            rb = range_bounds(s.iter)
+            rb = range_bounds(subst(TT.expand(s.iter, at=s, skip=(xn, info["m"])), back))
             for b in s.body:
                 if isinstance(b, ast.AugAssign) and isinstance(b.op, ast.Add):
-                    subs = {text(n.slice) for n in ast.walk(b.value) if isinstance(n, ast.Subscript) and access_path(n.value) == xn}
+                    bv = subst(TT.expand(b.value, at=b, skip=(xn, info["m"])), back)
+                    subs = {text(n.slice) for n in ast.walk(bv) if isinstance(n, ast.Subscript) and access_path(n.value) == xn}
                     if rb and len(subs) == 1:
                         idxs.append((s, rb, next(iter(subs))))
     slices = [n for n in ast.walk(fn) if isinstance(n, ast.Subscript) and access_path(n.value) == xn and isinstance(n.slice, ast.Slice)]
@@ -353,19 +369,15 @@ def r3_shapes(ctx, repo):
     fn = cls.methods.get("evaluate")
     C = "BiObjectiveTestProblem.evaluate"
     ind = func_params(fn)[1]
-    env = {}
-    ret = None
+    rts = [t for _, t in Terms(fn).returns if t is not None]
     try:
-        for s in fn.body:
-            if isinstance(s, ast.Assign) and isinstance(s.targets[0], ast.Name):
-                env[s.targets[0].id] = poly.norm(s.value, env)
-            elif isinstance(s, ast.Return):
-                ret = s.value
-        f1, f2 = (poly.norm(e, env) for e in ret.elts)
+        if len(rts) != 1 or not isinstance(rts[0], (ast.List, ast.Tuple)) or len(rts[0].elts) != 2:
+            raise poly.NotPolynomial("returned value %s is not a pair of objectives" % (text(rts[0]) if rts else "?"))
+        f1, f2 = (poly.norm(e) for e in rts[0].elts)
         ok = (f1 * f2) == poly.norm(poly.parse("1 + %s.vector[1]" % ind)) and f1 == poly.norm(poly.parse("%s.vector[0]" % ind))
         ctx.check(ok, "R3", C, where(cls.module, fn), "f1 = x1 and f1*f2 == 1 + x2 as rational normal forms" if ok else
                   "f1*f2 normalises to %s, not to 1 + x2" % poly.key_of(f1 * f2))
-    except Exception as e:  # noqa
+    except poly.NotPolynomial as e:
         ctx.inconclusive("R3", C, where(cls.module, fn), "not normalisable: %s" % e)
     # --- ZDT1
     cls = repo.cls("ZDT1", "benchmark_pareto")
@@ -374,87 +386,44 @@ def r3_shapes(ctx, repo):
     if not (ev and eg and eh):
         raise AnalysisError("ZDT1.evaluate / eval_g / eval_h not found")
     try:
-        def body_value(fn, argmap):
-            env = dict(argmap)
-            for s in fn.body:
-                if isinstance(s, ast.Assign) and isinstance(s.targets[0], ast.Name):
-                    env[s.targets[0].id] = norm_with_calls(s.value, env)
-                elif isinstance(s, ast.Return):
-                    return norm_with_calls(s.value, env)
-            return None
+        eff = self_effects_of(repo, cls)
 
-        def norm_with_calls(node, env):
-            # inline self.eval_g(x) / self.eval_h(a, b)
-            class T(ast.NodeTransformer):
-                def visit_Call(self, n):
-                    self.generic_visit(n)
-                    p = access_path(n.func) or ""
-                    if p in ("self.eval_g", "self.eval_h"):
-                        callee = eg if p.endswith("eval_g") else eh
-                        ps = func_params(callee)[1:]
-                        amap = {}
-                        for pn, a in zip(ps, n.args):
-                            amap[pn] = a
-                        # substitute parameter names inside the callee by the argument expressions (by value)
-                        val = body_value(callee, {pn: poly.norm(a, env) if not (isinstance(a, ast.Name) and a.id == xparam) else None for pn, a in amap.items()} if False else
-                                         {pn: (env[a.id] if isinstance(a, ast.Name) and a.id in env else poly.norm(a, env)) for pn, a in amap.items()
-                                          if not (isinstance(a, ast.Name) and a.id == xparam)})
-                        key = "__inl%d" % len(inl)
-                        inl[key] = val
-                        return ast.Name(id=key, ctx=ast.Load())
-                    return n
-            node2 = T().visit(copy.deepcopy(node))
-            e2 = dict(env)
-            e2.update(inl)
-            return poly.norm(node2, e2)
-        inl = {}
-        xparam = func_params(ev)[1]
-        ret = body_value(ev, {})
-        # the returned list: evaluate body_value returns norm of a List? handle separately
-    except Exception:
-        ret = None
-    # simpler, explicit route: build normal forms step by step
-    try:
+        def one_return(f):
+            r = [t for _, t in Terms(f, self_effects=eff).returns if t is not None]
+            if len(r) != 1:
+                raise poly.NotPolynomial("%s has %d returned values" % (f.name, len(r)))
+            return r[0]
         xp = func_params(ev)[1]
         gp = func_params(eg)[1]
-        g_env = {}
-        g_val = None
-        for s in eg.body:
-            if isinstance(s, ast.Assign) and isinstance(s.targets[0], ast.Name):
-                g_env[s.targets[0].id] = poly.norm(s.value, g_env)
-            elif isinstance(s, ast.Return):
-                g_val = poly.norm(s.value, g_env)
+        g_val = poly.norm(one_return(eg))
         want_g = poly.norm(poly.parse("1 + 9 / (len({x}.vector) - 1) * (sum({x}.vector) - {x}.vector[0])".format(x=gp)))
         ok_g = g_val == want_g
         hf, hg = func_params(eh)[1:3]
-        h_ret = [s for s in eh.body if isinstance(s, ast.Return)][0].value
-        ok_h = poly.norm(h_ret) == poly.norm(poly.parse("1 - sqrt(%s / %s)" % (hf, hg)))
-        # evaluate: g = self.eval_g(x); h = self.eval_h(x.vector[0], g); f1 = x.vector[0]; f2 = h * g
-        e_env = {}
-        calls = {}
-        ret = None
-        for s in ev.body:
-            if isinstance(s, ast.Assign) and isinstance(s.targets[0], ast.Name):
-                v = s.value
-                if isinstance(v, ast.Call) and (access_path(v.func) or "") in ("self.eval_g", "self.eval_h"):
-                    calls[s.targets[0].id] = v
-                    e_env[s.targets[0].id] = poly.R(poly.atom("@" + s.targets[0].id))
-                else:
-                    e_env[s.targets[0].id] = poly.norm(v, e_env)
-            elif isinstance(s, ast.Return):
-                ret = s.value
-        gname = [k for k, v in calls.items() if access_path(v.func) == "self.eval_g"]
-        hname = [k for k, v in calls.items() if access_path(v.func) == "self.eval_h"]
+        ok_h = poly.norm(one_return(eh)) == poly.norm(poly.parse("1 - sqrt(%s / %s)" % (hf, hg)))
+        rt = one_return(ev)
         ok_e = False
-        detail = ""
-        if ret is not None and isinstance(ret, ast.List) and len(ret.elts) == 2 and gname and hname:
-            f1 = poly.norm(ret.elts[0], e_env)
-            f2 = poly.norm(ret.elts[1], e_env)
-            hcall = calls[hname[0]]
-            ok_args = len(hcall.args) == 2 and poly.norm(hcall.args[0], e_env) == poly.norm(poly.parse("%s.vector[0]" % xp)) \
-                and access_path(hcall.args[1]) == gname[0] and access_path(calls[gname[0]].args[0]) == xp
-            ok_e = ok_args and f1 == poly.norm(poly.parse("%s.vector[0]" % xp)) and f2 == e_env[hname[0]] * e_env[gname[0]]
-            detail = "f1 = x1, f2 = h*g with h = eval_h(x1, g), g = eval_g(x)"
+        if isinstance(rt, (ast.List, ast.Tuple)) and len(rt.elts) == 2:
+            x1 = poly.norm(poly.parse("%s.vector[0]" % xp))
+            state = {"args_ok": True, "g": 0, "h": 0}
+
+            class Inl(ast.NodeTransformer):
+                def visit_Call(self, n):
+                    self.generic_visit(n)
+                    p_ = access_path(n.func) or ""
+                    if p_ == "self.eval_g":
+                        state["g"] += 1
+                        if not (len(n.args) == 1 and access_path(n.args[0]) == xp):
+                            state["args_ok"] = False
+                        return ast.Name(id="G", ctx=ast.Load())
+                    if p_ == "self.eval_h":
+                        state["h"] += 1
+                        if not (len(n.args) == 2 and access_path(n.args[1]) == "G" and poly.equal(n.args[0], poly.parse("%s.vector[0]" % xp))):
+                            state["args_ok"] = False
+                        return ast.Name(id="H", ctx=ast.Load())
+                    return n
+            f1 = poly.norm(Inl().visit(copy.deepcopy(rt.elts[0])))
+            f2 = poly.norm(Inl().visit(copy.deepcopy(rt.elts[1])))
+            ok_e = state["args_ok"] and state["g"] >= 1 and state["h"] == 1 and f1 == x1 and f2 == poly.norm(poly.parse("H * G"))
         if ok_g and ok_h and ok_e:
             ctx.holds("R3", C, where(cls.module, ev), "g == 1 + 9/(n-1)*(sum(x)-x1), h == 1 - sqrt(f1/g), f2 == g*h (rational normal forms)")
         else:
